@@ -20,6 +20,8 @@ func c04DeclCfg() *DeclCfg {
 	cfg.Types = typesAll
 	cfg.PChoices, cfg.POptional, cfg.PRequired, cfg.PBase, cfg.PDefault = 20, 15, 15, 30, 15
 	cfg.NonASCII = true
+	cfg.NonASCIICmd = true
+	cfg.PDesc = 60
 	cfg.PosTypes = []TypeSpec{{K: KString}}
 	cfg.PPosReq = 30
 	cfg.MaxDepth = 2
